@@ -205,9 +205,19 @@ def run(ck, ctx):
         azi = D.A("aziAngVSubN")
         if is_ext_call(azi, "numpy.arctan2") and len(azi.args) == 3:
             yv, xv = azi.args[1], azi.args[2]
-            lat_rad = [n for n in walk([yv]) if is_ext_call(n, "numpy.arcsin")]
-            lon_rad = [n for n in walk([yv, xv]) if is_ext_call(n, "numpy.arctan2")]
-            if len({g.vn(n) for n in lat_rad}) == 1 and len({g.vn(n) for n in lon_rad}) == 1:
+            # the spot's latitude / longitude in radians are the arguments of the published degree values
+            def rad_of(deg):
+                x = deg
+                if x.op == "BinOp" and x.attr == "Mod":
+                    x = x.args[0]
+                if is_ext_call(x, "numpy.degrees", "numpy.rad2deg") and len(x.args) == 2:
+                    return x.args[1]
+                return None
+            lat_r, lon_r = rad_of(D.A("latS")), rad_of(D.A("longS"))
+            cone = list(walk([yv, xv]))
+            lat_rad = [lat_r] if lat_r is not None and any(n is lat_r for n in cone) else []
+            lon_rad = [lon_r] if lon_r is not None and any(n is lon_r for n in cone) else []
+            if lat_rad and lon_rad:
                 P = PolyFacet(I, opaque_ids={nodes["detLat"].id, nodes["detLong"].id, lat_rad[0].id, lon_rad[0].id},
                               gather_transparent=True)
                 env = {"la": P.of(nodes["detLat"]), "lo": P.of(nodes["detLong"]), "ls": P.of(lat_rad[0]),
@@ -225,8 +235,8 @@ def run(ck, ctx):
                       any(x is lat_rad[0] or g.same(x, lat_rad[0]) for x in walk([D.A("latS")])) and
                       any(x is lon_rad[0] or g.same(x, lon_rad[0]) for x in walk([D.A("longS")])), azi, func, "")
             else:
-                ck.ob("R02.7", "detector azimuth is built from one spot latitude and one spot longitude", False, azi,
-                      func, f"{len(lat_rad)} arcsin / {len(lon_rad)} arctan2 terms")
+                ck.ob("R02.7", "detector azimuth is built from the published spot latitude and longitude (radians)",
+                      False, azi, func, f"latitude term found: {bool(lat_rad)}, longitude term found: {bool(lon_rad)}")
             ck.ob("R02.7", "detector azimuth at the spot == arctan2(north, east)", True, azi, func, g.show(azi, 2))
         else:
             ck.ob("R02.7", "detector azimuth at the spot == arctan2(north, east)", False, azi, func, g.show(azi, 2))
